@@ -279,6 +279,12 @@ pub(crate) mod k {
             Fragment::CellText(x) => assert!(x.start.x == c.x + d.x && x.start.y == c.y + d.y && str_eq_n::<4>(&x.content, "é-"), "moved by the cell, content verbatim"),
             _ => assert!(false, "still a cell text"),
         }
+        // the same through the span wrapper (this is the call the renderer makes)
+        let fs = crate::buffer::fragment_buffer::FragmentSpan::new(crate::buffer::Span::new(c, 'é'), t.clone());
+        match fs.scale(s).fragment {
+            Fragment::Text(x) => assert!(x.start.x.to_bits() == ((c.x as f32 + 0.25) * s).to_bits() && str_eq_n::<4>(&x.text, "é-"), "FragmentSpan::scale converts and scales the text too"),
+            _ => assert!(false, "a scaled cell text is a text, also inside a FragmentSpan"),
+        }
         assert!(!t.is_broken(), "text is never dashed");
         let mut k = 0u8;
         while k < 5 {
